@@ -307,6 +307,13 @@ func (bf *buffer) Read(p []byte) (int, error) {
 		for ppos = bf.pseq.get(); cpos >= ppos; ppos = bf.pseq.get() {
 			verifYield(75)
 			if bf.isDone() {
+				// The buffer is closed, but what was committed before Close is still
+				// handed out: the cursor tested above may predate a commit that
+				// came before done was set, so look again.
+				verifYield(131)
+				if ppos = bf.pseq.get(); cpos < ppos {
+					break
+				}
 				verifYield(76)
 				bf.ccond.L.Unlock()
 				return 0, io.EOF
@@ -379,6 +386,11 @@ func (bf *buffer) ReadPeek(n int) ([]byte, error) {
 	for ppos = bf.pseq.get(); cpos >= ppos; ppos = bf.pseq.get() {
 		verifYield(84)
 		if bf.isDone() {
+			// closed: data committed before Close is still handed out (see Read)
+			verifYield(132)
+			if ppos = bf.pseq.get(); cpos < ppos {
+				break
+			}
 			verifYield(85)
 			bf.ccond.L.Unlock()
 			return nil, io.EOF
@@ -453,6 +465,11 @@ func (bf *buffer) ReadWait(n int) ([]byte, error) {
 	for ppos = bf.pseq.get(); next > ppos; ppos = bf.pseq.get() {
 		verifYield(94)
 		if bf.isDone() {
+			// closed: data committed before Close is still handed out (see Read)
+			verifYield(133)
+			if ppos = bf.pseq.get(); next <= ppos {
+				break
+			}
 			verifYield(95)
 			bf.ccond.L.Unlock()
 			return nil, io.EOF
@@ -646,6 +663,14 @@ func (bf *buffer) waitForWriteSpace(n int) (int64, int, error) {
 		verifYield(38)
 		bf.pseq.gate = cpos
 		bf.pcond.L.Unlock()
+	}
+
+	// There is room. A producer that Close has woken up, or that found room only
+	// after Close, must not go on writing into a closed buffer: test once more,
+	// after the last look at the consumer position.
+	verifYield(39)
+	if bf.isDone() {
+		return 0, 0, io.EOF
 	}
 
 	return ppos, n, nil
